@@ -252,7 +252,8 @@ def generate(seed: int, tier: str = "quick") -> Dict[str, Any]:
         style = rw.choice(["dict", "dict", "list"])
         kinds = {}
         for n in names:
-            pool = ["module_def", "nested_def", "celpy_visible_def"] if style == "list" else \
+            pool = ["module_def", "nested_def", "celpy_visible_def", "named_instance",
+                    "named_partial"] if style == "list" else \
                 ["module_def", "nested_def", "lambda", "instance", "bound_method", "partial",
                  "unhashable_instance", "unhashable_bound_method", "celpy_visible_def"]
             kinds[n] = rw.choice(pool)
